@@ -170,7 +170,8 @@ def one_model(job):
     if outs["testdata"].rc == 0:
         from . import c17
 
-        env = c17.envelopes(mm)
+        mm17 = MM(doc, open_extra=())
+        env = c17.envelopes(mm17)
         n = 0
         for fn in sorted(os.listdir(outs["testdata"].outdir)):
             m = c17.NAME_RE.match(fn)
@@ -183,7 +184,7 @@ def one_model(job):
                 continue
             j = json.load(open(os.path.join(outs["testdata"].outdir, fn), encoding="utf-8"))
             n += 1
-            v = mm.valid(j, env[cls][2], strict=True)
+            v = mm17.valid(j, env[cls][2], strict=True)
             if v is not label_:
                 fail("C17 does not hold for the evolved model|label %s but content is %s|%s" % (label_, "valid" if v else "invalid", env[cls][0]), {"name": fn, "content": j})
         res["vectors"] = n
